@@ -23,6 +23,73 @@ ASSUMPTIONS = ['3-D line/sphere geometry (taurex/util/geometry.py): modelled ste
                'licensed deviation: a layer row may differ from the uncut integral only if every wavenumber of the row '
                'is below exp(-10) and not below the uncut transmittance']
 
+# ---- source tie (harness/translate.py, dialect 'shaped' = harness/translate_shaped.py): the functions below are
+# re-translated on every run into lean/TaurexModel/Gen/SrcC01.lean; lean/Props/C01Src.lean proves each equal to the model.
+_TM = 'taurex/model/transmission.py'
+_CT = 'taurex/contributions/contribution.py'
+_CIA = 'taurex/contributions/cia.py'
+_KERNEL = dict(startK='nat', endK='nat', density_offset='nat', sigma='arr2', density='arr', path='arr', nlayers='skip',
+               ngrid='nat', layer='nat', tau='arr2')
+_TM_ATTRS = {'self._planet.fullRadius': ('rp', 's'), 'self._star.radius': ('rs', 's'), 'self.nLayers': ('nL', 'nat'),
+             'self.altitudeProfile': ('zprof', 'arr'), 'self.deltaz': ('deltaz', 'arr'),
+             'self.densityProfile': ('dens', 'arr'), 'self.new_method': ('newMethod', 'bool')}
+SRC_SPECS = [
+    # the numba kernel: both loops (k and wn) are translated; `tau` is mutated in place, the result is its final value
+    dict(module=_CT, func='contribute_tau', lean='contribute_tau', dialect='shaped', params=_KERNEL, out='tau',
+         returns='arr2'),
+    # Contribution.contribute: passes self.sigma_xsec / self._ngrid to the kernel
+    dict(module=_CT, cls='Contribution', func='contribute', lean='contribution_contribute', dialect='shaped',
+         params=dict(model='skip', start_layer='nat', end_layer='nat', density_offset='nat', layer='nat', density='arr',
+                     tau='arr2', path_length='arr'),
+         attrs={'self.sigma_xsec': ('sigma', 'arr2'), 'self._ngrid': ('ngrid', 'nat'), 'self._nlayers': ('nlayers', 'nat')},
+         out='tau', returns='arr2'),
+    # the other two kernels `path_integral` dispatches to (model kinds `sq` and `layerOnly`)
+    dict(module=_CIA, func='contribute_cia', lean='contribute_cia', dialect='shaped', params=_KERNEL, out='tau',
+         returns='arr2'),
+    dict(module=_CIA, cls='CIAContribution', func='contribute', lean='cia_contribute', dialect='shaped',
+         params=dict(model='skip', start_layer='nat', end_layer='nat', density_offset='nat', layer='nat', density='arr',
+                     tau='arr2', path_length='arr'),
+         attrs={'self.sigma_xsec': ('sigma', 'arr2'), 'self._ngrid': ('ngrid', 'nat'), 'self._nlayers': ('nlayers', 'nat'),
+                'self._total_cia': ('totalCia', 'nat')},
+         out='tau', returns='arr2'),
+    dict(module='taurex/contributions/simpleclouds.py', cls='SimpleCloudsContribution', func='contribute',
+         lean='clouds_contribute', dialect='shaped',
+         params=dict(model='skip', start_layer='skip', end_layer='skip', density_offset='skip', layer='nat',
+                     density='skip', tau='arr2', path_length='skip'),
+         attrs={'self.sigma_xsec': ('sigma', 'arr2')}, dims={'tau': ['nL', 'nW'], 'self.sigma_xsec': ['nL', 'nW']},
+         out='tau', returns='arr2'),
+    dict(module=_TM, cls='TransmissionModel', func='compute_path_length_old', callname='self.compute_path_length_old',
+         lean='compute_path_length_old', dialect='shaped', params=dict(dz='arr'), attrs=_TM_ATTRS,
+         dims={'self.altitudeProfile': ['nL'], 'dz': ['nL']}, returns='arrlist'),
+    dict(module=_TM, cls='TransmissionModel', func='compute_absorption', callname='self.compute_absorption',
+         lean='compute_absorption', dialect='shaped', params=dict(tau='arr2', dz='arr'), attrs=_TM_ATTRS,
+         dims={'self.altitudeProfile': ['nL'], 'dz': ['nL'], 'tau': ['nL', 'nW']}, returns=['arr', 'arr2']),
+    # new path method: the ray origins / tangent points handed to the 3-D geometry
+    dict(module='taurex/util/geometry.py', func='parallel_vector', lean='parallel_vector', dialect='shaped',
+         params=dict(R='s', alt='arr', max_alt='s'), lens={'alt': 'nA'}, dims={'alt': ['nA']},
+         static={"hasattr(alt, '__len__')": True}, returns=['arr2', 'arr2']),
+    dict(module=_TM, cls='TransmissionModel', func='compute_path_length', callname='self.compute_path_length',
+         lean='compute_path_length', dialect='shaped',
+         params={}, attrs={'self.altitude_boundaries': ('zb', 'arr'), 'self.planet.fullRadius': ('rp', 's'),
+                           'self.altitude_profile': ('zprof', 'arr'), 'self.deltaz': ('deltaz', 'arr')},
+         dims={'self.altitude_boundaries': ['(nL + 1)'], 'self.altitude_profile': ['nL'], 'self.deltaz': ['nL']},
+         call_list_externals={'self.planet.compute_path_length': dict(lean='planetPaths', kinds=['arr', 'arr2', 'arr2'],
+                                                                     elem=['skip', 'arr'])},
+         returns='arrlist'),
+    # the whole path_integral: the loop over layers, the loop over the contribution list with its `tau[layer].min() > 10`
+    # break; `contrib.contribute` (dynamic dispatch) and `planet.compute_path_length` (the 3-D geometry of the new path
+    # method) are parameters.  (`self.planet.fullRadius` / `self._planet.fullRadius` and `self.altitude_profile` /
+    # `self.altitudeProfile` are the same attributes read through a property and directly: one parameter each.)
+    dict(module=_TM, cls='TransmissionModel', func='path_integral', lean='path_integral', dialect='shaped',
+         params=dict(wngrid='skip', return_contrib='skip'), lens={'wngrid': 'nW'}, attrs=_TM_ATTRS,
+         dims={'self.deltaz': ['nL'], 'self.densityProfile': ['nL']},
+         objlists={'self.contribution_list': 'contribs'},
+         methods={'contribute': dict(lean='contribute', kinds=['skip', 'nat', 'nat', 'nat', 'nat', 'arr', 'arr2'],
+                                     kw={'path_length': 'arr'}, mutates='tau')},
+         ignore_stores=['self.path_length'],
+         returns=['arr', 'arr2']),
+]
+
 E10 = math.exp(-10.0)
 KINDS = {'CIAContribution': 1, 'SimpleCloudsContribution': 2}
 
